@@ -679,11 +679,13 @@ pub struct GraphTarget {
     fs: u32,
     out: Out,
     rib: Option<Box<dyn Rib>>,
+    pend: (u32, u32),
+    was_pressing: bool,
 }
 
 impl GraphTarget {
     pub fn new(fs: u32) -> Self {
-        GraphTarget { fs, out: Out::memory(), rib: None }
+        GraphTarget { fs, out: Out::memory(), rib: None, pend: (0, 0), was_pressing: false }
     }
 }
 
@@ -699,6 +701,8 @@ impl crate::graphrun::Target for GraphTarget {
             self.fs, cap, threshold_code(res), q24(boundary(res)), q24((res.0 + res.1) / res.2)
         ));
         self.rib = Some(make(self.fs, res).unwrap().0);
+        self.pend = (0, 0);
+        self.was_pressing = false;
     }
     fn apply(&mut self, op: &serde_json::Value, p: &serde_json::Value) -> Vec<String> {
         let mut tags = Vec::new();
@@ -710,18 +714,28 @@ impl crate::graphrun::Target for GraphTarget {
                 let (pr, v) = (r.pressing(), r.value());
                 self.out.line(&format!("{{\"op\":\"p\",\"x\":{},\"pr\":{},\"k\":{},\"q\":{}}}", code, pr, key(v), q24(v)));
             }
+            // "true exactly once per change": a true needs an unreported change, a false is wrong while the
+            // model's latch holds one (several unreported changes may be reported together or one by one)
             "jp" => {
                 let b = r.just_pressed();
                 self.out.line(&format!("{{\"op\":\"jp\",\"r\":{}}}", b));
-                if b != op["r"].as_bool().unwrap() {
+                let latch = op["r"].as_bool().unwrap();
+                if (b && self.pend.0 == 0) || (!b && latch) {
                     tags.push("C15:just-pressed".to_string());
+                }
+                if b && self.pend.0 > 0 {
+                    self.pend.0 -= 1;
                 }
             }
             "jr" => {
                 let b = r.just_released();
                 self.out.line(&format!("{{\"op\":\"jr\",\"r\":{}}}", b));
-                if b != op["r"].as_bool().unwrap() {
+                let latch = op["r"].as_bool().unwrap();
+                if (b && self.pend.1 == 0) || (!b && latch) {
                     tags.push("C15:just-released".to_string());
+                }
+                if b && self.pend.1 > 0 {
+                    self.pend.1 -= 1;
                 }
             }
             other => {
@@ -733,6 +747,15 @@ impl crate::graphrun::Target for GraphTarget {
         if r.pressing() != p[0].as_bool().unwrap() {
             tags.push("C15:press-state".to_string());
         }
+        // unreported changes of the model's press state
+        let now = p[0].as_bool().unwrap();
+        if now && !self.was_pressing {
+            self.pend.0 += 1;
+        }
+        if !now && self.was_pressing {
+            self.pend.1 += 1;
+        }
+        self.was_pressing = now;
         // abstraction of the value: corrected mean of the codes the model's <<sum, n>> stands for
         let sum = p[1][0].as_f64().unwrap() * CODE_PER_UNIT as f64;
         let n = p[1][1].as_f64().unwrap();
